@@ -9,6 +9,36 @@ open MosVerif
 
 theorem id_pure_int' (x : Int) : (pure x : Id Int) = x := rfl
 
+/-- equality of two Boolean tests built from `decide`s of linear (in)equalities, `&&`, `||`, `!`: robust against
+    reordering and re-phrasing (`a > 0` / `a ≥ 1` / `0 < a`) of the translated side -/
+macro "bool_arith15" : tactic =>
+  `(tactic| (rw [Bool.eq_iff_iff] <;>
+      simp only [Bool.and_eq_true, Bool.or_eq_true, Bool.not_eq_true', Bool.not_eq_eq_eq_not, Bool.not_true,
+        decide_eq_true_eq, decide_eq_false_iff_not] <;> omega))
+
+/-- ★ the WHOLE body of `ClientLimiterOpts.setDefault` (all four defaults, and nothing else: a further statement
+    touching one of the four fields would show up here), field by field.  The rate is an integer in the model as in the
+    configuration (`Limit: float64(cfg.Client.Limit)`), so `int(opts.Limit)` is the value itself. -/
+theorem setDefault_translated (o : Opts) :
+    (o.setDefault).limit = Translated.c15_setDefault_limit o.limit o.burst o.v4Mask o.v6Mask ∧
+    (o.setDefault).burst = Translated.c15_setDefault_burst o.limit o.burst o.v4Mask o.v6Mask ∧
+    (o.setDefault).v4Mask = Translated.c15_setDefault_v4mask o.limit o.burst o.v4Mask o.v6Mask ∧
+    (o.setDefault).v6Mask = Translated.c15_setDefault_v6mask o.limit o.burst o.v4Mask o.v6Mask := by
+  unfold Opts.setDefault Translated.c15_setDefault_limit Translated.c15_setDefault_burst
+    Translated.c15_setDefault_v4mask Translated.c15_setDefault_v6mask
+  simp only [Id.run, id_pure_int', decide_eq_true_eq, Bool.or_eq_true, defaultLimit, defaultV4Mask, defaultV6Mask]
+  refine ⟨?_, ?_, ?_, ?_⟩ <;> (repeat' split) <;> simp_all <;> omega
+
+/-- `cfg.GlobalLimit > 0`: a global limiter is built -/
+theorem initGlobalCond_translated (g : Int) : limitSet g = Translated.c15_initGlobalCond g := by
+  unfold limitSet Translated.c15_initGlobalCond
+  bool_arith15
+
+/-- `cfg.Client.Limit > 0`: a client limiter is built -/
+theorem initClientCond_translated (l : Int) : limitSet l = Translated.c15_initClientCond l := by
+  unfold limitSet Translated.c15_initClientCond
+  bool_arith15
+
 theorem setDefault_masks_translated (o : Opts) :
     (o.setDefault).v4Mask = Translated.setDefault_V4Mask o.v4Mask o.v6Mask ∧
     (o.setDefault).v6Mask = Translated.setDefault_V6Mask o.v4Mask o.v6Mask := by
